@@ -129,8 +129,15 @@ func poolTypestateIn(c *core.Ctx, rule, pkgSuffix string) {
 			continue
 		}
 		for _, ci := range core.Calls(f) {
-			if !isPoolCall(ci, "Put") {
+			putArg, isPut := poolPutArg(ci)
+			if !isPut {
 				continue
+			}
+			// a one-hop wrapper's own Put of its parameter is judged at the wrapper's call sites
+			if isPoolCall(ci, "Put") {
+				if p, isParam := core.Unwrap(putArg, true).(*ssa.Parameter); isParam && p.Parent() == f && len(f.Blocks) <= 2 {
+					continue
+				}
 			}
 			if _, isDefer := ci.(*ssa.Defer); isDefer {
 				n++
@@ -139,7 +146,7 @@ func poolTypestateIn(c *core.Ctx, rule, pkgSuffix string) {
 			}
 			n++
 			key := core.FuncKey(f) + " pool Put typestate"
-			arg := core.Unwrap(ci.Common().Args[1], true)
+			arg := core.Unwrap(putArg, true)
 			// strip slice/convert wrappers
 			for {
 				if s, ok := arg.(*ssa.Slice); ok {
@@ -594,7 +601,7 @@ func c07NoSharedBuffers(c *core.Ctx) {
 			continue
 		}
 		for _, ci := range core.Calls(f) {
-			if isPoolCall(ci, "Put") || isPoolCall(ci, "Get") {
+			if _, isPut := poolPutArg(ci); isPut || poolGetCall(ci) {
 				n++
 			}
 		}
